@@ -1462,10 +1462,12 @@ inline std::vector<Spec> specs(int purpose, const std::string &tier, const std::
 						{
 							if (c5 && !thorough && n == 3 && r != 1) continue;
 							std::vector<size_t> p = rot_of(n, r);
+							LeCfg H = L;
+							if (c5) { H.ps = 256, H.qs = 160; }      // the rotation argument has no l_e: the 256/160 group suffices for C05
 							for (int proto = 2; proto < 4; proto++)
 								for (int mode = (proto == 3 ? 1 : 0); mode < 3; mode++)
-									add_spec(v, std::string(proto == 2 ? "vrhe" : "hoogh") + drv::str(mode) + ":le" + drv::str(L.le) + ":n" + drv::str(n) + ":r" + drv::str(r),
-										c5 ? 1 : (thorough ? 32 : 4), [L, n, p, proto, mode]() { return make_shuffle(shworld(world(L.ps, L.qs), n, L.le), proto, mode, n, p); });
+									add_spec(v, std::string(proto == 2 ? "vrhe" : "hoogh") + drv::str(mode) + ":g" + drv::str(H.ps) + ":n" + drv::str(n) + ":r" + drv::str(r),
+										c5 ? 1 : (thorough ? 32 : 4), [H, n, p, proto, mode]() { return make_shuffle(shworld(world(H.ps, H.qs), n, H.le), proto, mode, n, p); });
 						}
 				}
 			if (want("hoogh") && !c5 && li != 1)
